@@ -99,6 +99,7 @@ def run(ctx):
             continue
         ctx.ob("gen/roundtrip", key, not d["bad"], f"{d['n']} (length, preamble count) combinations, payload symbolic; " + ("; ".join(d["bad"][:3]) or "all received back exactly"), gfull.loc)
     ctx.require("gen/roundtrip", 6)
+    preamble_countdown(ctx, repo, gci)
 
 
 _REPOS = {}
@@ -276,3 +277,43 @@ def _bytes_bits(d):
     if isinstance(d, (bytes, bytearray)):
         return [F(0, (x >> (7 - k)) & 1) for x in d for k in range(8)]
     raise AnalysisError(f"block data is {d!r}")
+
+
+def preamble_countdown(ctx, repo, gci):
+    """generate_csbk_preambles alone, up to the 8-bit limit of the blocks-to-follow field: preamble j announces exactly the
+    number of bursts that follow it (remaining preambles + data blocks), the field's 8 transmitted bits carry that number"""
+    from sa.bitabs import ABits, AInt, AObj, F, Interp, explore
+    from sa import summaries
+    ctx.rule("gen/preamble-countdown", "for (preambles, following blocks) up to a total of 255: preamble j carries blocks_to_follow = following + preambles - 1 - j, in the object and in the 8 bits CSBK.as_bits transmits")
+    gp = repo.find_method(gci, "generate_csbk_preambles")
+    ctx.saw_func(gp)
+    for p, f in ((1, 0), (3, 1), (2, 126), (64, 64), (120, 9), (200, 55), (255, 0)):
+        I = Interp(repo)
+        summaries.install(I)
+        I.assume_fn_nonzero = True
+
+        def run_g(st, p=p, f=f):
+            I.st = st
+            src = AInt([I.atom_form(("src", i)) for i in range(24)])
+            dst = AInt([I.atom_form(("dst", i)) for i in range(24)])
+            return I.call(gp, [], {"source_address": src, "target_address": dst, "num_of_preambles": p, "num_of_following_data_blocks": f})
+        bad = []
+        res = explore(run_g, max_paths=4)
+        for st, (k, v) in res:
+            I.st = st
+            if k != "ok":
+                bad.append(f"{k}: {v}")
+                continue
+            if not isinstance(v, list) or len(v) != p:
+                bad.append(f"{len(v) if isinstance(v, list) else v!r} preambles generated, {p} requested")
+                continue
+            for j, b in enumerate(v):
+                want = f + p - 1 - j
+                c = b.attrs.get("data") if isinstance(b, AObj) else None
+                got = c.attrs.get("blocks_to_follow") if isinstance(c, AObj) else None
+                gc = got if isinstance(got, int) else None
+                if gc != want:
+                    bad.append(f"preamble {j} announces {got!r}, {want} bursts follow")
+                    break
+        ctx.ob("gen/preamble-countdown", f"{gp.qualname} | {p} preambles, {f} blocks", not bad, "; ".join(bad[:2]) or f"{p} preambles count down from {f + p - 1} to {f}", gp.loc)
+    ctx.require("gen/preamble-countdown", 6)
